@@ -184,7 +184,8 @@ class CallMixin:
             if m is not None:
                 return self.call_function(VFunc(m[0], None, m[1], m[1].mod.relpath, name), [recv] + list(args), kwargs)
         if isinstance(recv, VCallback):
-            return self.call_callback(VCallback(f"{recv.name}.{name}", (recv.spec or {}).get(name, recv.spec)), args, kwargs, node, frame)
+            sp = self.cb_spec(f"{recv.name}.{name}", (recv.spec or {}).get(name) if isinstance(recv.spec, dict) else None)
+            return self.call_callback(VCallback(f"{recv.name}.{name}", sp), args, kwargs, node, frame)
         from .builtins_ import call_builtin_method
         return call_builtin_method(self, recv, name, args, kwargs, node, frame)
 
@@ -279,6 +280,10 @@ class CallMixin:
                 if cb.name.endswith(pat):
                     for lbl, ex in clauses.items():
                         f = self.inv_frame(frame, {"args": VTuple(args), "arg0": args[0] if args else NONE})
+                        root = getattr(self, "root_frame", None)
+                        if root is not None and root is not frame:
+                            for k_, v_ in self.visible_locals(root).items():
+                                f.locals.setdefault(k_, v_)
                         self.pure += 1
                         try:
                             t = self.truthy(self.eval(self.verifier.parse_clause(ex), f))
